@@ -4,6 +4,7 @@ import (
 	"encoding/json"
 	"fmt"
 	"regexp"
+	"strconv"
 	"strings"
 	"testing"
 	"unicode"
@@ -13,13 +14,15 @@ import (
 
 	"verif/internal/h"
 	"verif/internal/obs"
+	"verif/internal/ref"
 )
 
 // C17 — string builtins obey the laws of prefix, suffix, slice and pad.
 //
 // One case = (s, t, positions, pad char, list, pattern). All laws of the
 // statement are evaluated for the case through the real evaluator (the strings
-// enter as data-map entries, so no literal quoting is involved) and compared
+// enter as data-map entries; every third formula is evaluated once more with
+// the strings written as literals, which must give the same outcome) and compared
 // with naive byte-level reference implementations written with explicit loops.
 
 type c17Case struct {
@@ -113,8 +116,26 @@ func c17Eval(c c17Case, expr string) ([]interface{}, string) {
 	if !ok {
 		return nil, fmt.Sprintf("%s -> not an array: %s", expr, out)
 	}
+	// the same formula with the strings written as literals instead of read from the data: same outcome
+	c17LitCount++
+	if c17LitCount%3 == 0 && !strings.Contains(expr, "slist") {
+		lit := c17Words.ReplaceAllStringFunc(expr, func(w string) string {
+			if v, isStr := data[w].(string); isStr {
+				return ref.QuoteString(v, '\'')
+			}
+			return w
+		})
+		if lit != expr {
+			if out2 := obs.EvalText(lit, data); out2.String() != out.String() {
+				return nil, fmt.Sprintf("%s = %s with the strings read from the data, but %s with the same strings written as literals: %s", expr, out, out2, strconv.QuoteToASCII(lit))
+			}
+		}
+	}
 	return arr, ""
 }
+
+var c17Words = regexp.MustCompile(`\b(s|t|c|sep|pat|r|ws)\b`)
+var c17LitCount int
 
 func wantBool(arr []interface{}, k int, want bool, what string) string {
 	got, ok := arr[k].(bool)
